@@ -70,9 +70,9 @@ def per_count(name, counts_quick=(0, 1, 2), counts_thorough=(0, 1, 2, 3), label=
 
 
 FLAGTXT = "6 literal flag words covering every RESET/LIST/MULTI combination; index, values symbolic"
-per_count("opt_getval", entry="h_opt_getval", func="cfg_opt_getval", harness="harness/store.c", cbmc=unw(6) + OOM, label=FLAGTXT,
+per_count("opt_getval", entry="h_opt_getval", func="cfg_opt_getval", harness="harness/store.c", cbmc=unw(6) + OOM, label=FLAGTXT, replay="replay/store_api.c",
           props=["C09", "C10", "C18", "C02"], cost=30, **CF)
-per_count("opt_setnint", entry="h_opt_setnint", func="cfg_opt_setnint", harness="harness/store.c", cbmc=unw(6) + OOM, label=FLAGTXT,
+per_count("opt_setnint", entry="h_opt_setnint", func="cfg_opt_setnint", harness="harness/store.c", cbmc=unw(6) + OOM, label=FLAGTXT, replay="replay/store_api.c",
           props=["C09", "C10", "C18", "C02"], cost=30, **CF)
 per_count("opt_setnfloat_bool", entry="h_opt_setnfloat_bool", func="cfg_opt_setnfloat, cfg_opt_setnbool", harness="harness/store.c", cbmc=unw(6) + OOM,
           label=FLAGTXT, props=["C09", "C10", "C18", "C02"], cost=40, **CF)
@@ -152,7 +152,8 @@ for _nm, _props in (("act_top", ["C03", "C02", "C06", "C08", "C15"]), ("act_dq",
         U("lex_%s_s%d" % (_nm, _sh), tu="lexer", harness="harness/lex_act.c", entry="h_" + _nm, func="scanner rule actions (%s), qputc/qput/qbeg/qend/qstr/trim_whitespace" % _nm,
           defs={"quick": ["-DTOKN=4", "-DSCRATCH_SHAPE=%d" % _sh], "thorough": ["-DTOKN=6", "-DSCRATCH_SHAPE=%d" % _sh]}, cbmc=unw(50) + NOOOM,
           label="bounded(token text <= 4 bytes quick / 6 thorough over all bytes; scratch buffer shape %d of 5: unallocated / empty / 7 bytes / one byte left / full)" % _sh,
-          props=_props, cost=80, trusted=LEXTRUST, tiers=("quick", "thorough") if _sh in (0, 2, 4) else ("thorough",))
+          props=_props, cost=80, trusted=LEXTRUST, replay="replay/lex_string.c" if _nm in ("act_dq", "act_sq") else None,
+          tiers=("quick", "thorough") if (_sh in (0, 2, 4) or (_sh == 1 and _nm == "act_linecomment")) else ("thorough",))
 
 FLEXC = dict(remove=["cfg_yy_create_buffer", "cfg_yypush_buffer_state", "cfg_yypop_buffer_state"], carriers=["carriers/flex_buffers.c"])
 HLPTRUST = LEXTRUST + ["flex buffer stack: create/push/pop are a stack (carriers/flex_buffers.c)", "fopen/fclose/strerror: assumed contracts with a ghost open-set"]
